@@ -144,6 +144,8 @@ FAMILY = [
     Struct("SAbiRem", [F("a", "u32"), F("b", "AbiRemoved<u32>", vfrom=0, vto=0), F("c", "u32"), F("d", "u32", vfrom=2)],
            repr="C", version=2, tags=["older"]),
     Struct("SUpperBound", [F("a", "u32"), F("x", "u32", vfrom=0, vto=1)], repr="C", version=2, tags=["older"]),
+    # a variant added at version 2 declared BEFORE an older variant
+    Enum("EVerMid", [V("A"), V("B", [F("0", "u32")], tuple_=True, vfrom=2), V("C", [F("0", "u16")], tuple_=True)], version=2, tags=["novec"]),
 ]
 
 # ---- evolution histories: each entry is a list of definitions of "the same" type at versions 0..n -----
@@ -497,6 +499,13 @@ def main():
         m = max_size(n, types)
         if m is not None:
             reg.append('    h(mal_%s, 64, crate::containers::malformed_fixed::<%s, _, %d>, "complete", "C06", "%s Deserialize; Deserializer::read_*", "");' % (n, T, m, der))
+    nat = ["// GENERATED by /verif/gen/gen_family.py -- native (small-scope enumeration) registry for the family",
+           "pub fn native_family_registry() -> Vec<(&'static str, fn(&mut crate::src::EnumSrc))> {", "    vec!["]
+    for n in CONTAINER_TYPES + ["EVerMid", "SWithOnly", "EDir", "EOnly", "SVerOrder", "SAbiRem"]:
+        nat.append('        // n(nschema_%s, "C12", "derive WithSchema for %s; savefile::get_schema; derive Serialize", "small-scope values of %s at its current version");' % (n, n, n))
+        nat.append('        ("nschema_%s", (|s: &mut crate::src::EnumSrc| crate::schemaread::schema_faithful::<crate::family_gen::%s, _>(s)) as fn(&mut crate::src::EnumSrc)),' % (n, n))
+    nat += ["    ]", "}"]
+    open(os.path.join(OUT, "native_family.rs"), "w").write("\n".join(nat) + "\n")
     open(os.path.join(OUT, "family_gen.rs"), "w").write("\n".join(out))
     reg.append("}")
     open(os.path.join(OUT, "registry_family.rs"), "w").write("\n".join(reg) + "\n")
